@@ -1,4 +1,5 @@
 import XV.Lemmas.Sandbox
+import XV.Lemmas.SandboxXfer
 /-!
 C10 — sandbox: read-your-writes, exact range scans, sound replayable read/write set.
 
@@ -362,5 +363,166 @@ example : (get rDemo (after fixed rDemo demoOps) 1 4).2 = .val 9 ∧ (get rDemo 
 -- the read set is non-empty and the re-run agrees
 example : ((after fixed rDemo demoOps).inputs 1).length = 5 := by decide
 example : (run fixed (readerFromRWSet (after fixed rDemo demoOps)) State.init demoOps).2 = (run fixed rDemo State.init demoOps).2 := by decide
+
+/-! ### the token side: `Transfer`, events, `Flush`
+
+Programs now mix `Get / Put / Del / Select` (`XOp.kv`) with `Transfer` (`XOp.xfer`) and `AddEvent`
+(`XOp.event`); `XState.flush` is the write set after `Flush` (the three reserved entries of the
+transient bucket, then the key/value write set).  The first run draws its token inputs from a
+`UReader` that meets the contract of `UtxoVM.SelectUtxos` (`UReader.Lawful`: inputs of the asked
+address, total = their sum ≥ the amount, **no proper prefix already covers the amount**, what is
+handed out or refused is consistent with a spendable amount that never grows); `listReader` (the
+first-run reader of the harness) is one such reader for every list of unspent outputs.
+The re-run is what `State.verifyTxRWSets` does: `XMReaderFromRWSet` of the read set and
+`NewUTXOReaderFromInput` of the recorded inputs (`replayReader`). -/
+
+/-- Re-running the same program over the reader built from the recorded read set and the utxo
+reader built from the recorded inputs reproduces every call's result (which transfers fail
+included), the token inputs and outputs, the events and the whole write set after `Flush`
+(reserved transient entries and key/value part), and uses up the recorded inputs exactly. -/
+def transfer_replay_statement (c : Cfg) : Prop :=
+  ∀ (r : Reader), r.WF → ∀ (σ : Type) (R : UReader σ), R.Lawful → ∀ (st0 : σ) (ops : List XOp),
+    let first := xrun c r R (XState.init st0) ops
+    let again := xrun c (readerFromRWSet first.1.kv) replayReader (XState.init first.1.tok.uin) ops
+    again.2 = first.2 ∧ again.1.tok.uin = first.1.tok.uin ∧ again.1.tok.uout = first.1.tok.uout ∧
+    again.1.events = first.1.events ∧ again.1.flush = first.1.flush ∧ again.1.tok.rd = []
+
+theorem transfer_replay : transfer_replay_statement fixed := by
+  intro r hr σ R hR st0 ops
+  obtain ⟨cap, hcap⟩ := hR
+  simp only
+  rw [xrun_split fixed r R ops (XState.init st0)]
+  simp only [XState.init]
+  rw [xrun_split]
+  simp only
+  obtain ⟨k1, k2⟩ := replay_deterministic r hr (kvOps ops)
+  obtain ⟨t1, _⟩ := tok_replay hcap (xfers ops) st0 [] (fun a => by simp [ownSum_nil])
+  rw [List.append_nil] at t1
+  unfold after at k1 k2
+  rw [t1, k1]
+  simp [XState.flush, k2]
+
+/-- the same statement for an arbitrary first-run reader -/
+def transfer_replay_any_reader_statement : Prop :=
+  ∀ (r : Reader), r.WF → ∀ (σ : Type) (R : UReader σ) (st0 : σ) (ops : List XOp),
+    let first := xrun fixed r R (XState.init st0) ops
+    let again := xrun fixed (readerFromRWSet first.1.kv) replayReader (XState.init first.1.tok.uin) ops
+    again.2 = first.2 ∧ again.1.tok.uin = first.1.tok.uin ∧ again.1.tok.uout = first.1.tok.uout ∧
+    again.1.events = first.1.events ∧ again.1.flush = first.1.flush ∧ again.1.tok.rd = []
+
+/-- a reader that hands out every output of the address (it covers the amount, but a proper prefix
+already did) -/
+def eagerReader : UReader (List TxIn) where
+  select st a need :=
+    let mine := st.filter (fun u => u.owner = a)
+    if sumIn mine < need then (none, st) else (some (mine, sumIn mine), st.filter (fun u => u.owner ≠ a))
+
+/-- The hypothesis on the first-run reader is needed: if it hands out `[5, 3]` for an amount of 5,
+the replay reader stops after the `5`, so the re-run records one input and no change output. -/
+theorem transfer_replay_any_reader_counterexample : ¬ transfer_replay_any_reader_statement := by
+  intro h
+  have := (h rx rx_wf _ eagerReader [⟨0, 1, 5⟩, ⟨1, 1, 3⟩] [.xfer 1 2 5]).2.1
+  revert this
+  decide
+
+/-- Conservation inside the sandbox: the recorded inputs are worth exactly the recorded outputs
+(transfer outputs plus change). -/
+theorem transfer_conserved (c : Cfg) (r : Reader) {σ : Type} (R : UReader σ) (hR : R.Lawful) (st0 : σ)
+    (ops : List XOp) :
+    sumIn (xrun c r R (XState.init st0) ops).1.tok.uin = sumOut (xrun c r R (XState.init st0) ops).1.tok.uout := by
+  obtain ⟨cap, hcap⟩ := hR
+  rw [xrun_split]
+  exact tok_conserved hcap (xfers ops) st0
+
+/-- Every recorded input belongs to the `from` of the transfer that consumed it: the recorded inputs
+are the concatenation of one chunk per `Transfer` call, in call order; the chunk of a failed call is
+empty, the chunk of a successful call belongs to its `from` address and covers its amount. -/
+theorem transfer_inputs_owned (c : Cfg) (r : Reader) {σ : Type} (R : UReader σ) (hR : R.Lawful) (st0 : σ)
+    (ops : List XOp) :
+    ∃ chunks : List (List TxIn),
+      (xrun c r R (XState.init st0) ops).1.tok.uin = chunks.flatten ∧
+      Chunks (xfers ops) (xferOks (xrun c r R (XState.init st0) ops).2) chunks := by
+  obtain ⟨cap, hcap⟩ := hR
+  rw [xrun_split]
+  simp only
+  rw [xferOks_weave ops _ _ (run_results_length _ _ _ _) (tokRun_results_length _ _ _)]
+  exact tok_chunks hcap (xfers ops) st0
+
+/-- No output is recorded twice as an input if the first-run reader never hands one out twice (it
+locks what it returns, `UReader.Locks`). -/
+theorem transfer_inputs_distinct (c : Cfg) (r : Reader) {σ : Type} (R : UReader σ) (st0 : σ)
+    (hL : R.Locks st0) (ops : List XOp) :
+    ((xrun c r R (XState.init st0) ops).1.tok.uin.map (·.ref)).Nodup := by
+  obtain ⟨free, good, h0, hL⟩ := hL
+  rw [xrun_split]
+  exact (tok_nodup free good hL (xfers ops) st0 h0).1
+
+/-- the three keys `Flush` writes -/
+inductive RKey where
+  | utxoInputs | utxoOutputs | contractEvent
+deriving Repr, DecidableEq
+
+def TEntry.key : TEntry → RKey
+  | .inputs _ => .utxoInputs
+  | .outputs _ => .utxoOutputs
+  | .events _ => .contractEvent
+
+/-- does the write set after `Flush` hold an entry for this bucket and key (`inl`: one of the keys of
+`Flush`, `inr`: a key of the program) -/
+def wsetHas {σ : Type} (x : XState σ) (b : Bucket) : RKey ⊕ Key → Prop
+  | .inl rk => b = transient ∧ rk ∈ x.flush.reserved.map TEntry.key
+  | .inr k => x.flush.kv.get b k ≠ none
+
+/-- does the read set hold an entry for this bucket and key (`Flush` reads nothing) -/
+def rsetHas {σ : Type} (x : XState σ) (b : Bucket) : RKey ⊕ Key → Prop
+  | .inl _ => False
+  | .inr k => x.kv.inputs.get b k ≠ none
+
+/-- After `Flush`, the transient bucket is the only place where the write set holds keys that are
+not in the read set (over a reader whose `Get` never fails, as the ledger's XModel). -/
+theorem wset_subset_rset_flush (r : Reader) (hr : r.WF) (htotal : ∀ b k, r.get b k ≠ none) {σ : Type}
+    (R : UReader σ) (st0 : σ) (ops : List XOp) (b : Bucket) (key : RKey ⊕ Key) (hb : b ≠ transient)
+    (hw : wsetHas (xrun fixed r R (XState.init st0) ops).1 b key) :
+    rsetHas (xrun fixed r R (XState.init st0) ops).1 b key := by
+  cases key with
+  | inl rk => exact absurd hw.1 hb
+  | inr k =>
+    simp only [wsetHas, rsetHas, XState.flush] at hw ⊢
+    rw [xrun_split] at hw ⊢
+    exact wset_subset_rset r hr htotal (kvOps ops) b k hb hw
+
+/-! ### non-vacuity of the token side -/
+
+/-- unspent outputs: address 1 holds 5, 3 and 2, address 2 holds 4 -/
+def utxoDemo : List TxIn := [⟨0, 1, 5⟩, ⟨1, 1, 3⟩, ⟨2, 2, 4⟩, ⟨3, 1, 2⟩]
+
+/-- a transfer covered exactly by the first output, an event, a transfer that needs two outputs and
+leaves change, one that fails for lack of funds, one refused for a zero amount, between reads and
+writes -/
+def xDemo : List XOp :=
+  [.kv (.get 1 0), .xfer 1 9 5, .event 7 8, .xfer 1 9 4, .xfer 2 9 10, .kv (.put 1 4 9), .xfer 1 9 0]
+
+-- the demo reader meets the hypotheses of the theorems
+example : listReader.Lawful ∧ listReader.Locks utxoDemo := ⟨listReader_lawful, listReader_locks _ (by decide)⟩
+example : (xrun fixed rDemo listReader (XState.init utxoDemo) xDemo).2 =
+    [.kv (.got (.val 5)), .xfer true, .event, .xfer true, .xfer false, .kv .done, .xfer false] := by decide
+example : (xrun fixed rDemo listReader (XState.init utxoDemo) xDemo).1.tok.uin =
+    [⟨0, 1, 5⟩, ⟨1, 1, 3⟩, ⟨3, 1, 2⟩] := by decide
+example : (xrun fixed rDemo listReader (XState.init utxoDemo) xDemo).1.tok.uout =
+    [⟨9, 5⟩, ⟨9, 4⟩, ⟨1, 1⟩] := by decide
+example : (xrun fixed rDemo listReader (XState.init utxoDemo) xDemo).1.flush.reserved =
+    [.inputs [⟨0, 1, 5⟩, ⟨1, 1, 3⟩, ⟨3, 1, 2⟩], .outputs [⟨9, 5⟩, ⟨9, 4⟩, ⟨1, 1⟩], .events [⟨7, 8⟩]] := by decide
+-- the re-run over the recorded inputs agrees call by call and is left with nothing
+example : (xrun fixed (readerFromRWSet (xrun fixed rDemo listReader (XState.init utxoDemo) xDemo).1.kv) replayReader
+    (XState.init [⟨0, 1, 5⟩, ⟨1, 1, 3⟩, ⟨3, 1, 2⟩]) xDemo).2 =
+    (xrun fixed rDemo listReader (XState.init utxoDemo) xDemo).2 := by decide
+example : (xrun fixed (readerFromRWSet (xrun fixed rDemo listReader (XState.init utxoDemo) xDemo).1.kv) replayReader
+    (XState.init [⟨0, 1, 5⟩, ⟨1, 1, 3⟩, ⟨3, 1, 2⟩]) xDemo).1.tok.rd = [] := by decide
+-- the transient bucket does hold a key that was not read
+example : wsetHas (xrun fixed rDemo listReader (XState.init utxoDemo) xDemo).1 transient (.inl .utxoInputs) ∧
+    ¬ rsetHas (xrun fixed rDemo listReader (XState.init utxoDemo) xDemo).1 transient (.inl .utxoInputs) :=
+  ⟨⟨rfl, by decide⟩, fun h => h⟩
+-- an execution without transfers or events leaves no reserved entry
+example : (xrun fixed rDemo listReader (XState.init utxoDemo) [.kv (.put 1 4 9), .xfer 2 9 10]).1.flush.reserved = [] := by decide
 
 end XV.C10
